@@ -54,6 +54,8 @@ Record side := {
   sd_keyset : option str; (* symbol that carries the fingerprint of the option KEY SET
                              (`options.keys() | sort(case_sensitive=true) | join(",") | to_static_assertion_value`),
                              defined by the support header / asserted by the type header; None = not present *)
+  sd_path_escape : list (N * str); (* the chain of `replace(<char>, <text>)` filters the DSDL path goes through before it is
+                             interpolated into a message (applied left to right); [] = raw path *)
   sd_msg_exprs : list str;(* canonical text of every template expression interpolated INSIDE the string literals of the
                              assertion messages (type side; [] on the support side) *)
   (* C / C++ level context of the statements (the scanner tracks comments and preprocessor conditionals) *)
@@ -227,28 +229,76 @@ Definition iter_expr : str :=   (* options.items() *)
 Definition sav_expr : str :=    (* value | to_static_assertion_value *)
   [118; 97; 108; 117; 101; 32; 124; 32; 116; 111; 95; 115; 116; 97; 116; 105; 99; 95; 97; 115; 115; 101; 114; 116; 105; 111; 110; 95; 118; 97; 108; 117; 101].
 
-(* Expressions that may be interpolated into a C/C++ string literal without being able to end it or to start an
-   escape sequence: the DSDL file NAME (pydsdl restricts it to <identifier>.<n>.<n>.dsdl), the option KEY, and the
-   DSDL file PATH once backslashes and double quotes are escaped:
-     (T.source_file_path.as_posix() | replace("\\", "\\\\") | replace('"', '\\"')) if nunavut.embed_auditing_info else T.source_file_path.name
-   An option VALUE is never literal-safe (documented values contain double quotes). *)
+(* ---- string-literal safety of what the assertion messages interpolate ----
+   Message pieces: the DSDL file NAME (pydsdl restricts it to <identifier>.<n>.<n>.dsdl), the option KEY, and the token
+   <escaped-path> = the DSDL path passed through the regenerated replace chain sd_path_escape.  An option VALUE is
+   never literal-safe (documented values contain double quotes). *)
 Definition safe_msg_exprs : list str :=
-  [ [40; 84; 46; 115; 111; 117; 114; 99; 101; 95; 102; 105; 108; 101; 95; 112; 97; 116; 104; 46; 97; 115; 95; 112; 111; 115; 105; 120; 40; 41; 32; 124; 32; 114; 101; 112; 108; 97; 99; 101; 40; 34; 92; 92; 34; 44; 32; 34; 92; 92; 92; 92; 34; 41; 32; 124; 32; 114; 101; 112; 108; 97; 99; 101; 40; 39; 34; 39; 44; 32; 39; 92; 92; 34; 39; 41; 41; 32; 105; 102; 32; 110; 117; 110; 97; 118; 117; 116; 46; 101; 109; 98; 101; 100; 95; 97; 117; 100; 105; 116; 105; 110; 103; 95; 105; 110; 102; 111; 32; 101; 108; 115; 101; 32; 84; 46; 115; 111; 117; 114; 99; 101; 95; 102; 105; 108; 101; 95; 112; 97; 116; 104; 46; 110; 97; 109; 101];
-    [84; 46; 115; 111; 117; 114; 99; 101; 95; 102; 105; 108; 101; 95; 112; 97; 116; 104; 46; 110; 97; 109; 101];
-    [107; 101; 121];
-    [107; 101; 121; 32; 124; 32; 105; 100] ].
-(* The raw PATH is not literal-safe: a directory name may contain a double quote or a backslash (finding
-   F-OPTGUARD-MSG-PATH: with --embed-auditing-info such a path ends the literal and identical option sets do not
-   build).  Tolerated by sides_agree (a hostile path, not an option, triggers it) but tracked: msg_path_escaped. *)
-Definition raw_path_msg_exprs : list str :=
-  [ [84; 46; 115; 111; 117; 114; 99; 101; 95; 102; 105; 108; 101; 95; 112; 97; 116; 104; 46; 97; 115; 95; 112; 111; 115; 105; 120; 40; 41; 32; 105; 102; 32; 110; 117; 110; 97; 118; 117; 116; 46; 101; 109; 98; 101; 100; 95; 97; 117; 100; 105; 116; 105; 110; 103; 95; 105; 110; 102; 111; 32; 101; 108; 115; 101; 32; 84; 46; 115; 111; 117; 114; 99; 101; 95; 102; 105; 108; 101; 95; 112; 97; 116; 104; 46; 110; 97; 109; 101];
-    [84; 46; 115; 111; 117; 114; 99; 101; 95; 102; 105; 108; 101; 95; 112; 97; 116; 104; 46; 97; 115; 95; 112; 111; 115; 105; 120; 40; 41] ].
-Definition msg_literal_safe (sd : side) : bool :=
-  forallb (fun e => str_in e safe_msg_exprs || str_in e raw_path_msg_exprs) (sd_msg_exprs sd).
-Definition msg_path_escaped (sd : side) : bool := forallb (fun e => str_in e safe_msg_exprs) (sd_msg_exprs sd).
+  [ [60; 101; 115; 99; 97; 112; 101; 100; 45; 112; 97; 116; 104; 62] (* <escaped-path> *);
+    [84; 46; 115; 111; 117; 114; 99; 101; 95; 102; 105; 108; 101; 95; 112; 97; 116; 104; 46; 110; 97; 109; 101] (* T.source_file_path.name *);
+    [107; 101; 121] (* key *);
+    [107; 101; 121; 32; 124; 32; 105; 100] (* key | id *) ].
+Definition msg_literal_safe (sd : side) : bool := forallb (fun e => str_in e safe_msg_exprs) (sd_msg_exprs sd).
+
+(* Jinja `x | replace(c, r) | ...`: each filter rewrites the whole result of the previous one *)
+Fixpoint apply_escape (chain : list (N * str)) (s : str) : str :=
+  match chain with
+  | [] => s
+  | (c, r) :: ch => apply_escape ch (flat_map (fun x => if x =? c then r else [x]) s)
+  end.
+
+(* body of a C / C++ string literal: no bare double quote, no newline; a backslash only when followed by a backslash,
+   a double quote, a question mark or an apostrophe *)
+Fixpoint lit_ok (s : str) : bool :=
+  match s with
+  | [] => true
+  | c :: s' =>
+      if c =? 92 then
+        match s' with
+        | d :: s'' => ((d =? 92) || (d =? 34) || (d =? 63) || (d =? 39)) && lit_ok s''
+        | [] => false
+        end
+      else if (c =? 34) || (c =? 10) then false else lit_ok s'
+  end.
+
+(* translation phase 1 of the ISO modes the check compiles with (-std=c11, -std=c++14): trigraph replacement *)
+Definition trigraph (c : N) : option N :=
+  if c =? 61 then Some 35 else if c =? 40 then Some 91 else if c =? 47 then Some 92 else if c =? 41 then Some 93
+  else if c =? 39 then Some 94 else if c =? 60 then Some 123 else if c =? 33 then Some 124 else if c =? 62 then Some 125
+  else if c =? 45 then Some 126 else None.
+Fixpoint detrigraph (s : str) : str :=
+  match s with
+  | [] => []
+  | a :: s' =>
+      match s' with
+      | b :: c :: r => if (a =? 63) && (b =? 63) then match trigraph c with Some x => x :: detrigraph r | None => a :: detrigraph s' end
+                       else a :: detrigraph s'
+      | _ => a :: detrigraph s'
+      end
+  end.
+
+(* all strings of length <= n over an alphabet *)
+Fixpoint strings_upto (alpha : list N) (n : nat) : list str :=
+  match n with
+  | O => [[]]
+  | S m => [] :: flat_map (fun s => map (fun a => a :: s) alpha) (strings_upto alpha m)
+  end.
+(* the characters that matter: double quote, backslash, question mark, slash, apostrophe, right parenthesis, a letter *)
+Definition hostile_alphabet : list N := [34; 92; 63; 47; 39; 41; 117].
+Definition hostile_paths : list str := strings_upto hostile_alphabet 5.
+(* bounded, exhaustive: every path of <= 5 hostile characters is a valid literal body after escaping ... *)
+Definition escape_quote_safe (chain : list (N * str)) : bool := forallb (fun s => lit_ok (apply_escape chain s)) hostile_paths.
+(* ... also after trigraph replacement *)
+Definition escape_trigraph_safe (chain : list (N * str)) : bool :=
+  forallb (fun s => lit_ok (detrigraph (apply_escape chain s))) hostile_paths.
+(* a side whose messages interpolate the path must escape it (a side without messages has nothing to escape) *)
+Definition path_escape_ok (sd : side) : bool :=
+  negb (str_in [60; 101; 115; 99; 97; 112; 101; 100; 45; 112; 97; 116; 104; 62] (sd_msg_exprs sd)) || escape_quote_safe (sd_path_escape sd).
+Definition path_trigraph_ok (sd : side) : bool :=
+  negb (str_in [60; 101; 115; 99; 97; 112; 101; 100; 45; 112; 97; 116; 104; 62] (sd_msg_exprs sd)) || escape_trigraph_safe (sd_path_escape sd).
 
 Definition sides_agree (sup typ : side) : bool :=
-  side_live typ && side_live sup && msg_literal_safe typ && msg_literal_safe sup &&
+  side_live typ && side_live sup && msg_literal_safe typ && msg_literal_safe sup && path_escape_ok typ && path_escape_ok sup &&
   str_eqb (sd_iter typ) iter_expr && str_eqb (sd_value typ) sav_expr &&
   str_eqb (sd_iter sup) (sd_iter typ) && str_eqb (sd_name sup) (sd_name typ) && str_eqb (sd_value sup) (sd_value typ)
   && match sd_skip sup, sd_skip typ with [], [] => true | _, _ => false end.
@@ -308,5 +358,5 @@ Definition opt_equiv (o1 o2 : list (str * oval)) : Prop :=
 (* a tree before the key-set fingerprint (History/C17_history.v) *)
 Definition without_keyset (sd : side) : side :=
   {| sd_iter := sd_iter sd; sd_skip := sd_skip sd; sd_name := sd_name sd; sd_value := sd_value sd;
-     sd_unless_omit := sd_unless_omit sd; sd_keyset := None; sd_msg_exprs := sd_msg_exprs sd;
+     sd_unless_omit := sd_unless_omit sd; sd_keyset := None; sd_path_escape := sd_path_escape sd; sd_msg_exprs := sd_msg_exprs sd;
      sd_in_comment := sd_in_comment sd; sd_pp_context := sd_pp_context sd; sd_includes_before := sd_includes_before sd |}.
